@@ -242,6 +242,8 @@ fn run(ctx: &mut Ctx, extra: &mut BTreeMap<String, String>, moc: bool) {
         let (fa, fb) = if rng.coin() { (flat(dma, &ca, moc || rng.coin()), flat(dmb, &cb, moc || rng.coin())) } else { (ca.clone(), cb.clone()) };
         if let (Some(a2), Some(b2)) = (via(&mut rng, dma, &fa), via(&mut rng, dmb, &fb)) {
           let (ca2, cb2) = (cells_of(&a2), cells_of(&b2));
+          // a plain MOC (every cell full) is handed out in canonical packed form whatever produced it (fixed-depth builder included)
+          if moc { for (nm, x, dmx, cx) in [("a", &a2, dma, &ca2), ("b", &b2, dmb, &cb2)].iter() { if x.get_depth_max() == *dmx && dmx <= &5 { c.eval(); let canon = canonical_moc(*dmx, &to_model(*dmx, cx)); if **cx != canon { c.violation("moc-of-another-provenance-not-in-canonical-packed-form", Case::new("op").s("op", "build").u("dma", *dmx as u64).s("a", &cells_to_str(cx)).u("dmb", 0).s("b", "-").b("moc", true).s("which", nm), format!("got {} canonical {}", fmt_cells(cx), fmt_cells(&canon))); } } } }
           if a2.get_depth_max() == dma && b2.get_depth_max() == dmb {
             judge_built(c, Op::Not, &a2, dma, &ca2, &b2, dmb, &[], moc);
             for &op in ops.iter() { judge_built(c, op, &a2, dma, &ca2, &b2, dmb, &cb2, moc); }
